@@ -491,6 +491,125 @@ func runC15(r *Run) {
 	checkBlockedAddrs(r, "R7", "distribution")
 	r.Import("R4/C14.", []string{"R2"}, runC14)
 	r.Import("R5/C02.", []string{"R3"}, runC02)
+	r.Rule("R13", "FLOW.pool-debits-carry-what-unbond-reports: the staking module-accounts invariant equates the bonded / not-bonded pool balances with the validators' tokens and the unbonding entries. Haqq code that takes coins out of a staking pool by name (an upgrade handler that undelegates on an account's behalf: bonded → not-bonded → delegator) moves exactly the amount the staking keeper's Unbond returned for the shares it removed — the amount that was *asked for* differs from it by one unit as soon as the validator was ever slashed (shares are no longer worth one token each), and the pool is then one unit off the validator's tokens for good")
+	{
+		nPool := 0
+		for _, fn := range P.Funcs {
+			if isTestSupport(P, fn) || fn.Synthetic != "" || !isHaqqPath(fnPkgPath(fn)) || strings.Contains(fnPkgPath(fn), "/testutil") {
+				continue
+			}
+			idx := 0
+			eachCall(fn, func(ci CallInfo) {
+				if !(ci.Name == "SendCoinsFromModuleToModule" || ci.Name == "SendCoinsFromModuleToAccount" || ci.Name == "UndelegateCoinsFromModuleToAccount") {
+					return
+				}
+				a := ci.Instr.Common().Args
+				fromPool := false
+				var coins ssa.Value
+				for i, x := range a {
+					if s, ok := constString(x); ok && (s == "bonded_tokens_pool" || s == "not_bonded_tokens_pool") && !fromPool && i <= 2 {
+						// the sender is the first string argument
+						first := true
+						for _, y := range a[:i] {
+							if _, isS := constString(y); isS {
+								first = false
+							}
+						}
+						if first {
+							fromPool = true
+						}
+					}
+					if namedName(x.Type()) == "Coins" {
+						coins = x
+					}
+				}
+				if !fromPool || coins == nil {
+					return
+				}
+				nPool++
+				idx++
+				okAmt := backSlice(coins).Any(func(v ssa.Value) bool {
+					ex, ok := v.(*ssa.Extract)
+					if !ok || ex.Index != 0 {
+						return false
+					}
+					c, ok := ex.Tuple.(*ssa.Call)
+					return ok && callInfo(c).Name == "Unbond"
+				})
+				r.Check(okAmt, "R13", fmt.Sprintf("%s#pool-debit-%d-is-the-unbonded-amount", fnID(outermost(fn)), idx), P.Pos(instrPos(ci.Instr)), "the coins derive from Unbond's result",
+					"coins are taken out of a staking pool with an amount that does not derive from what Unbond returned for the removed shares: on a validator that was slashed the requested amount and the unbonded amount differ by a unit, and the pool no longer matches the validators' tokens (staking module-accounts invariant)")
+			})
+		}
+		r.Count("R13 debits of a staking pool by name in Haqq code", nPool)
+		r.Floor("R13", "debits of a staking pool by name in Haqq code", nPool, 2)
+	}
+	r.Rule("R14", "STALE.fee-pool-read-modify-write-is-contiguous: the community pool is one record that many keeper calls rewrite (reward withdrawals book their truncation remainders to it, commission withdrawals, hooks). Wherever Haqq code stores a fee pool it read before (GetFeePool … SetFeePool), no call that can write state — a keeper method other than a getter, an iteration with a callback, a hook — lies on a path between that read and the write: otherwise the write puts back a copy that misses what those calls added, and the distribution account holds coins nothing accounts for (the ModuleAccount invariant of x/distribution; InitGenesis of an exported state panics on the mismatch)")
+	{
+		nRMW := 0
+		for _, fn := range P.Funcs {
+			if isTestSupport(P, fn) || fn.Synthetic != "" || !isHaqqPath(fnPkgPath(fn)) || strings.Contains(fnPkgPath(fn), "/testutil") {
+				continue
+			}
+			idx := 0
+			eachCall(fn, func(ci CallInfo) {
+				if ci.Name != "SetFeePool" {
+					return
+				}
+				set := ci.Instr
+				var val ssa.Value
+				for _, a := range set.Common().Args {
+					if namedName(a.Type()) == "FeePool" {
+						val = a
+					}
+				}
+				if val == nil {
+					return
+				}
+				nRMW++
+				idx++
+				inst := fmt.Sprintf("%s#fee-pool-write-%d", fnID(outermost(fn)), idx)
+				var gets []ssa.CallInstruction
+				backSlice(val).Any(func(v ssa.Value) bool {
+					if c, ok := v.(*ssa.Call); ok && callInfo(c).Name == "GetFeePool" {
+						gets = append(gets, c)
+					}
+					return false
+				})
+				if len(gets) == 0 {
+					r.Bad("R14", inst, P.Pos(instrPos(set)), "a fee pool is stored whose value does not come from a GetFeePool read that the analysis can see (built from scratch, or read in another function): whatever the record held is overwritten")
+					return
+				}
+				bad := ""
+				for _, g := range gets {
+					if g.Parent() != set.Parent() {
+						bad = "the read at " + P.Pos(instrPos(g)) + " is made in another function (" + fnID(g.Parent()) + ") than the write"
+						continue
+					}
+					isG := func(in ssa.Instruction) bool { return in == ssa.Instruction(g) }
+					eachCall(set.Parent(), func(e CallInfo) {
+						if e.Instr == g || e.Instr == set || bad != "" {
+							return
+						}
+						mayWrite := isCosmosEffect(e) || e.Name == "Hooks"
+						for _, a := range e.Instr.Common().Args {
+							if _, ok := a.(*ssa.MakeClosure); ok {
+								mayWrite = true
+							}
+						}
+						if !mayWrite || !instrMayPrecede(g, e.Instr) {
+							return
+						}
+						if w := (PathQuery{Fn: set.Parent(), Start: e.Instr, Block: isG, Target: func(in ssa.Instruction) bool { return in == ssa.Instruction(set) }}).Search(); w != nil {
+							bad = e.String() + " at " + P.Pos(instrPos(e.Instr)) + " can run between the read and the write"
+						}
+					})
+				}
+				r.Check(bad == "", "R14", inst, P.Pos(instrPos(set)), "read, change and write with no state-writing call in between",
+					"a fee pool read earlier is written back although "+bad+": what that call added to the community pool (truncation remainders of withdrawn rewards, …) is overwritten — coins stay in the distribution account that no record accounts for")
+			})
+		}
+		r.Floor("R14", "fee-pool writes in Haqq code", nRMW, 1)
+	}
 	r.Rule("R11", "PATH.multisend-rejects-every-blocked-output + SHAPE.staking-pools-named-by-constants: (a) the bank MsgMultiSend wrapper tests BlockedAddr for the address of every output in a loop of its own — each iteration passes the test, its true edge reaches only failure exits, and InputOutputCoins is reachable only after the loop; (b) wherever Haqq code names a staking pool account to the bank keeper (SendCoinsFromModuleToModule, UndelegateCoinsFromModuleToAccount, … in upgrade handlers) the module name is a constant at that call site, not a value chosen at run time from the validator's status: tokens of Unbonding validators sit in the not-bonded pool, and a pool picked by IsUnbonded()/IsBonded() shortcuts debits the wrong one")
 	if ms, ok := P.FnOK("(x/bank/keeper.msgServer).MultiSend"); ok {
 		okLoop := false
